@@ -377,7 +377,7 @@ def options(extra):
 class Session(object):
     """one ReBench session's persistence objects, built by the real code"""
 
-    def __init__(self, workdir, n_runs, data_file, url, with_db=True, branch=None, real_ui=None):
+    def __init__(self, workdir, n_runs, data_file, url, with_db=True, branch=None, real_ui=None, clean=False):
         # the real command-line UI (its messages go through str.format), or the test dummy that ignores them
         if real_ui is None:
             self.ui = TestDummyUI()
@@ -395,7 +395,8 @@ class Session(object):
             created.append(obj)
         cls.__init__ = spy_init
         try:
-            opts = options(([] if with_db else ['-R']) + (['--branch=' + branch] if branch else []))
+            # -c / --clean: the data file is emptied when it is opened, the session starts a new record
+            opts = options(([] if with_db else ['-R']) + (['--branch=' + branch] if branch else []) + (['-c'] if clean else []))
             self.cnf = Configurator(raw_config(workdir, n_runs, url), self.ds, self.ui, opts, data_file=data_file)
             runs = list(self.cnf.get_runs())
         finally:
